@@ -165,6 +165,43 @@ func FMA(g *G, n int) []Program {
 			}
 		}
 	}
+	// the addend passes through unchanged (zero product, or an infinite addend with finite factors) while it carries an
+	// inexact accuracy from its own history and is also the receiver: the result is exact and must say so
+	for m := 0; m < 6; m++ {
+		for kind := 0; kind < 4; kind++ {
+			switch kind {
+			case 0, 1: // u finite, rounded by SetPrec (Below or Above stays behind); x or y zero
+				g.Load("r3", g.Bool(), g.Digits(9+g.R.Intn(20)), g.Exp(), 0, g.Mode())
+				g.Emit(M{"op": "SetMode", "z": "r3", "m": m}) // (before SetPrec: SetMode resets the accuracy)
+				g.Emit(M{"op": "SetPrec", "z": "r3", "p": 3 + g.R.Intn(5)})
+				g.LoadSpecial("r0", "zero", g.Bool(), g.Pick(0, 5), g.Mode())
+				g.Load("r1", g.Bool(), g.Digits(1+g.R.Intn(6)), int64(g.R.Intn(9)-4), 0, g.Mode())
+				if kind == 1 {
+					g.Emit(M{"op": "Copy", "z": "r2", "x": "r0"})
+					g.Emit(M{"op": "Copy", "z": "r0", "x": "r1"})
+					g.Emit(M{"op": "Copy", "z": "r1", "x": "r2"})
+				}
+			default: // u = +-Inf obtained by an overflowing multiplication (accuracy Above / Below), finite factors
+				g.Load("r0", g.Bool(), "5", 2147483647, 0, g.Mode())
+				g.Load("r1", g.Bool(), "7", 40, 0, g.Mode())
+				g.Receiver("r3", 5, g.Mode())
+				g.Emit(M{"op": "Mul", "z": "r3", "x": "r0", "y": "r1"})
+				g.Load("r0", g.Bool(), g.Digits(1+g.R.Intn(6)), int64(g.R.Intn(9)-4), 0, g.Mode())
+				g.Load("r1", g.Bool(), g.Digits(1+g.R.Intn(6)), int64(g.R.Intn(9)-4), 0, g.Mode())
+			}
+			z := "r3"
+			if kind == 3 {
+				z = g.PickS("r3", "r2")
+			}
+			if z == "r2" {
+				g.Receiver("r2", g.Pick(0, 6), m)
+			}
+			g.Emit(M{"op": "FMA", "z": z, "x": "r0", "y": "r1", "u": "r3"})
+			if g.Pending() >= 120 {
+				out = append(out, g.Flush("fma"))
+			}
+		}
+	}
 	if g.Pending() > 0 {
 		out = append(out, g.Flush("fma"))
 	}
